@@ -32,6 +32,9 @@ pub enum GenerateError {
     /// Integer literal is too large to be written in the output language
     UnrepresentableLiteral,
 
+    /// A resource uses a bind group index that has no argument buffer
+    TooManyBindGroups,
+
     /// We expect all input constant buffers to have been transformed into struct / global pairs already
     ConstantBuffersNotSimplified,
 
